@@ -765,6 +765,7 @@ def module_grid(tier):
     add("linsolve", "n2-sym", n=2, mclass="symmetric", lda=not q)
     add("linsolve", "n2-symflag", n=2, mclass="symmetric", lda=not q, flags=dict(symmetric=True))
     add("linsolve", "n2-cplx", n=2, cplx=True, lda=False)
+    add("linsolve", "n2-cplx-realseed", n=2, cplx=True, lda=False, real_seed=True)
     add("linsolve", "n2-cplx-lda", n=2, cplx=True, lda=not q)
     add("linsolve", "n2-herm", n=2, cplx=True, mclass="hermitian", lda=not q)
     add("linsolve", "n2-csym", n=2, cplx=True, mclass="symmetric", lda=not q)
